@@ -612,7 +612,7 @@ WMPT = dict(
     summary_keys=["commits", "gcs", "owner_observations", "rollbacks", "copyroot_forks", "distinct_nodes", "generator_modes", "go_histories", "panics"],
     ops_of=_wmpt_ops,
     assumptions=["storage = in-memory StorageAdapter with atomic batches (Pebble itself is not exercised)",
-                 "weight is a function of the value (length of the value's part before '#')",
+                 "weight is a function of the value (length of the value's part before '#') times a per-trace scale (1, 1000, 2^20, 2^33+7, 2^40): the trie works with the real numbers, the trace carries the small ones; one owners row per unit of `scale` blocks (first, middle and last block of the unit must agree)",
                  "independent root/weight computation and node parsing by harness/bridge/wmpt.go",
                  "SaveRoot/reload are only issued on a clean (committed) trie; exactly one commit between checkpoint and rollback"],
 )
